@@ -233,6 +233,13 @@ CASES = [
     ("nested_snapshot_same", "[snapshot(c0), c1]", "[n0, n1]", ["c0", "c1", "n0", "n1"], None, False),
     ("nested_snapshot_longer", "[snapshot(c0), c1]", "[n0, n1, n2]", ["c0", "c1", "n0", "n1", "n2"], None, False),
     ("nested_snapshot_dict", "{1: snapshot(c0), 2: c1}", "{1: n0, 2: n1}", ["c0", "c1", "n0", "n1"], None, False),
+    # the observed dict enumerates the shared keys in another order than the literal
+    ("is_dict_reordered", "{1: c0, 2: Is(c1)}", "{2: n1, 1: n0}", ["c0", "c1", "n0", "n1"], None, False),
+    ("is_dict_reordered3", "{1: Is(c0), 2: c1, 3: c2}", "{3: n2, 1: n0, 2: n1}", ["c0", "c1", "c2", "n0", "n1", "n2"], None, False),
+    ("is_dict_reordered_gone", "{1: c0, 2: Is(c1), 3: c2}", "{3: n2, 2: n1}", ["c0", "c1", "c2", "n1", "n2"], None, False),
+    ("fstring_dict_reordered", '{1: f"{s0}!", 2: c0}', "{2: n0, 1: 'q'}", ["c0", "n0"], {"s0": "abc"}, False),
+    ("nested_snapshot_dict_reordered", "{1: snapshot(c0), 2: c1}", "{2: n1, 1: n0}", ["c0", "c1", "n0", "n1"], None, False),
+    ("is_nested_dict_reordered", "[{1: c0, 2: Is(c1)}]", "[{2: n1, 1: n0}]", ["c0", "c1", "n0", "n1"], None, False),
 ]
 
 
